@@ -6,7 +6,7 @@ HERE = os.path.dirname(os.path.abspath(__file__)); VERIF = os.path.dirname(HERE)
 PY = "/venv/bin/python"
 deliver, which, prop = sys.argv[1], sys.argv[2], sys.argv[3]
 needs = sys.argv[4] if len(sys.argv) > 4 else ""
-mid = f"{prop}-{which}"
+mid = sys.argv[5] if len(sys.argv) > 5 else f"{prop}-{which}"
 patch = os.path.join(deliver, f"mut{which}.diff"); demo = os.path.join(deliver, f"demo{which}.py")
 d = f"/tmp/vmut/intake-{mid}"
 shutil.rmtree(d, ignore_errors=True); os.makedirs(d)
